@@ -41,7 +41,7 @@ fn apply_change(cfg: &Config, ch: &Value, root: &Path) {
 		cfg.pathset(v);
 	}
 	if let Some(k) = ch["watcher"].as_str() {
-		cfg.file_watcher(if k == "poll" { WxWatcher::Poll(Duration::from_millis(50)) } else { WxWatcher::Native });
+		cfg.file_watcher(match k { "poll" => WxWatcher::Poll(Duration::from_millis(50)), "poll2" => WxWatcher::Poll(Duration::from_millis(80)), _ => WxWatcher::Native });
 	}
 	if let Some(t) = ch["throttle"].as_u64() {
 		cfg.throttle(Duration::from_millis(t));
@@ -142,7 +142,7 @@ async fn run(case: Value, root: &Path) -> Value {
 	let sh2 = sh.clone();
 	*watchexec::sources::fs::verif::FACTORY.lock().unwrap() = Some(Box::new(move |kind, _h| {
 		let mut r = sh2.lock().unwrap();
-		let k = match kind { WxWatcher::Native => "native".to_owned(), _ => "poll".to_owned() };
+		let k = match kind { WxWatcher::Native => "native".to_owned(), WxWatcher::Poll(d) if d == Duration::from_millis(50) => "poll".to_owned(), _ => "poll2".to_owned() };
 		r.instances.push((k.clone(), vec![], true));
 		let idx = r.instances.len() - 1;
 		r.calls.push(format!("create({idx},{k})"));
